@@ -58,6 +58,9 @@ TABLE = {
  'C20': (MC, 'TLC-evaluated path-spelling semantics (spec/DirTree.tla Lex/OsOk/Protected) replayed on DataDir',
          'TLC enumerates spellings (sequences of ., .., empty component, protected name, sub-directory, file in a sub-directory, user file, missing name, own directory name) and evaluates the lexical target, whether the OS can walk it, and the verdict Refused / OsError / Allowed; every row x 12 public writers (write_txt, write_jsonfile, write_jsondict, update_jsondict, delete_files, open_file in 7 modes) x str / Path / absolute form x overwrite is executed with a recursive byte snapshot; user-file effects follow the TLC table EffectRows; plus write/read round trips of unicode JSON dicts and text.',
          'Spellings up to 3 components quick / 4 thorough; symlinked user files are outside the property.', '7 C20'),
+ 'C06': (MC, 'strict front ends -> read plans judged by TLC (spec/ReadCode.tla) + execution of the Python family',
+         'Every generated program (13 types x 2 byte orders x ranks 1-4 with distinct extents and length-1 axes x 12 languages x 3 path modes) is produced by the real readcode(); foreign-language snippets must be accepted by a strict per-language front end (anything else is not well-formed) and the resulting read plan is judged by TLC: element kind/size from the language type token, byte order token, element count, dimensions (as stored for row-major, reversed for column-major, per-language singleton rules), file offset of every index tuple, complex part layout. Offered/withheld is compared with the TLC table OfferedRows (docs/readcode.rst) and with readcodelanguages; the path in the code with the requested mode. darr/numpy/numpymemmap/python snippets are executed in a subprocess and compared element-wise, with per-snippet file hashes before/after, also for empty arrays.',
+         'No foreign interpreter exists in the sandbox: the language semantics in spec/ReadCode.tla are a transcription of the documentation (trusted); well-formed means accepted by the front end.', '7 C06'),
 }
 NA = {}
 def main():
